@@ -31,8 +31,11 @@ KD, KJ = 4.0, 2.0
 def _case(draw, vacuum=False, thorough=False):
     R = math.exp(draw(st.floats(math.log(50.0), math.log(7500.0 if thorough else 3000.0))))
     kinds = ("vacuum",) if vacuum else ("icao", "explicit")
-    spec = draw(gen.shot(look_max_deg=60.0, rel_deg=(-2.0, 10.0), range_ft=R, max_winds=4, twist=False, atmo_kinds=kinds, powder=True))
-    if abs(spec["look"] + spec["rel"]) > 75 * gen.DEG:
+    spec = draw(gen.shot(look_max_deg=60.0, rel_deg=(-2.0, 10.0), range_ft=R, max_winds=4, twist=False, atmo_kinds=kinds, powder=True,
+                         zero_deg=(-2.0, 5.0)))
+    if draw(st.booleans()):
+        spec["zero"] = 0.0
+    if abs(spec["look"] + spec["rel"] + spec["zero"]) > 75 * gen.DEG:
         spec["rel"] = 0.0
     if spec["atmo"]["kind"] == "explicit" and draw(st.booleans()) and spec.get("powder"):
         spec["atmo"]["powder_t_c"] = draw(st.floats(-20.0, 45.0))
@@ -63,6 +66,8 @@ def check(case, levels=None):
     L = levels or (4 if lib.os.environ.get("VERIF_TIER") == "thorough" else 3)
     vac = spec["atmo"]["kind"] == "vacuum"
     r.label("vacuum" if vac else "air", f"H:{H}")
+    if spec.get("zero"):
+        r.label("stored-zero!=0" + (":canted" if spec.get("cant") else ""))
     # ---- implementation at L refinement levels
     impl = []
     for j in range(L):
